@@ -1,7 +1,8 @@
 #!/bin/sh
 # usage: tools/regress_seeded.sh [ids...]   re-runs the quick check of each seeded change's property against it;
-# every line must say exit=1. /repo must be clean and is left clean.
-cd /verif
+# every line must say exit=1. Honours REPO_DIR / VERIF_HOME (see try_seeded.sh).
+home=${VERIF_HOME:-/verif}
+cd $home
 ids=${@:-$(ls seeded)}
 for id in $ids; do
   p=${id%%-*}
